@@ -6,6 +6,24 @@ From Pi2 Require Import ML.Syntax ML.Subst.
 Import ListNotations.
 Open Scope N_scope.
 
+(** [Instruction] and [Instruction::from], lib.rs:18-80 *)
+Inductive instr :=
+| IEVar | ISVar | ISym | IImp | IApp | IMu | IEx | IMVar | IESub | ISSub
+| IProp1 | IProp2 | IProp3 | IQuant | IExistence | IMP | IGen | ISubst | IInst
+| IPop | ISave | ILoad | IPublish | ICleanMVar | IUnimpl.
+
+Definition decode_op (b:N) : option instr :=
+  match b with
+  | 2 => Some IEVar | 3 => Some ISVar | 4 => Some ISym | 5 => Some IImp | 6 => Some IApp
+  | 7 => Some IMu | 8 => Some IEx | 9 => Some IMVar | 10 => Some IESub | 11 => Some ISSub
+  | 12 => Some IProp1 | 13 => Some IProp2 | 14 => Some IProp3 | 15 => Some IQuant
+  | 16 | 17 | 18 | 20 | 23 | 25 => Some IUnimpl
+  | 19 => Some IExistence | 21 => Some IMP | 22 => Some IGen | 24 => Some ISubst
+  | 26 => Some IInst | 27 => Some IPop | 28 => Some ISave | 29 => Some ILoad | 30 => Some IPublish
+  | 137 => Some ICleanMVar
+  | _ => None
+  end.
+
 Inductive term := TPat (p:pat) | TProved (p:pat).
 Inductive phase := Gamma | Claim | Proof.
 
@@ -76,35 +94,35 @@ Definition set_stack (s:list term) (st:state) : state := mkst s (memory st) (cla
 
 Definition is_evar (p:pat) : bool := match p with EVar _ => true | _ => false end.
 
-(** one instruction: opcode byte [op], remaining bytes [bs]; returns remaining bytes and new state *)
-Definition step (ph:phase) (op:N) (bs:list N) (st:state) : option (list N * state) :=
-  match op with
-  | 2 => match bs with id::r => Some (r, push (TPat (EVar id)) st) | [] => None end
-  | 3 => match bs with id::r => Some (r, push (TPat (SVar id)) st) | [] => None end
-  | 4 => match bs with id::r => Some (r, push (TPat (Sym id)) st) | [] => None end
-  | 5 => match pop_pat (stack st) with
+(** one instruction [i] (already decoded), remaining bytes [bs]; returns remaining bytes and new state *)
+Definition step_i (ph:phase) (i:instr) (bs:list N) (st:state) : option (list N * state) :=
+  match i with
+  | IEVar => match bs with id::r => Some (r, push (TPat (EVar id)) st) | [] => None end
+  | ISVar => match bs with id::r => Some (r, push (TPat (SVar id)) st) | [] => None end
+  | ISym => match bs with id::r => Some (r, push (TPat (Sym id)) st) | [] => None end
+  | IImp => match pop_pat (stack st) with
          | Some (r0, s1) => match pop_pat s1 with
              | Some (l0, s2) => Some (bs, set_stack (TPat (Imp l0 r0) :: s2) st)
              | None => None end
          | None => None end
-  | 6 => match pop_pat (stack st) with
+  | IApp => match pop_pat (stack st) with
          | Some (r0, s1) => match pop_pat s1 with
              | Some (l0, s2) => Some (bs, set_stack (TPat (App l0 r0) :: s2) st)
              | None => None end
          | None => None end
-  | 7 => (* Mu *)
+  | IMu => (* Mu *)
          match bs with
          | id::r => match pop_pat (stack st) with
              | Some (q, s1) => if pat_positive q id then Some (r, set_stack (TPat (Mu id q) :: s1) st) else None
              | None => None end
          | [] => None end
-  | 8 => (* Exists *)
+  | IEx => (* Exists *)
          match bs with
          | id::r => match pop_pat (stack st) with
              | Some (q, s1) => Some (r, set_stack (TPat (Ex id q) :: s1) st)
              | None => None end
          | [] => None end
-  | 9 => (* MetaVar *)
+  | IMVar => (* MetaVar *)
          match bs with
          | id::r0 =>
            match read_vec r0 with Some (ef, r1) =>
@@ -118,8 +136,8 @@ Definition step (ph:phase) (op:N) (bs:list N) (st:state) : option (list N * stat
              | _ => None end
            | None => None end | None => None end | None => None end | None => None end | None => None end
          | [] => None end
-  | 137 => match bs with id::r => Some (r, push (TPat (phi id)) st) | [] => None end
-  | 10 => (* ESubst *)
+  | ICleanMVar => match bs with id::r => Some (r, push (TPat (phi id)) st) | [] => None end
+  | IESub => (* ESubst *)
          match bs with
          | x::r => match pop_pat (stack st) with
              | Some (p, s1) => match pop_pat s1 with
@@ -133,7 +151,7 @@ Definition step (ph:phase) (op:N) (bs:list N) (st:state) : option (list N * stat
                  | None => None end
              | None => None end
          | [] => None end
-  | 11 => (* SSubst *)
+  | ISSub => (* SSubst *)
          match bs with
          | x::r => match pop_pat (stack st) with
              | Some (p, s1) => match pop_pat s1 with
@@ -145,12 +163,12 @@ Definition step (ph:phase) (op:N) (bs:list N) (st:state) : option (list N * stat
                  | None => None end
              | None => None end
          | [] => None end
-  | 12 => Some (bs, push (TProved ax_prop1) st)
-  | 13 => Some (bs, push (TProved ax_prop2) st)
-  | 14 => Some (bs, push (TProved ax_prop3) st)
-  | 15 => Some (bs, push (TProved ax_quantifier) st)
-  | 19 => Some (bs, push (TProved ax_existence) st)
-  | 21 => (* ModusPonens *)
+  | IProp1 => Some (bs, push (TProved ax_prop1) st)
+  | IProp2 => Some (bs, push (TProved ax_prop2) st)
+  | IProp3 => Some (bs, push (TProved ax_prop3) st)
+  | IQuant => Some (bs, push (TProved ax_quantifier) st)
+  | IExistence => Some (bs, push (TProved ax_existence) st)
+  | IMP => (* ModusPonens *)
          match pop_proved (stack st) with
          | Some (p2, s1) => match pop_proved s1 with
              | Some (Imp l r, s2) =>
@@ -158,7 +176,7 @@ Definition step (ph:phase) (op:N) (bs:list N) (st:state) : option (list N * stat
                  then Some (bs, set_stack (TProved r :: s2) st) else None
              | _ => None end
          | None => None end
-  | 22 => (* Generalization: pops first, then reads the id *)
+  | IGen => (* Generalization: pops first, then reads the id *)
          match pop_proved (stack st) with
          | Some (Imp l r, s1) =>
              match bs with
@@ -167,7 +185,7 @@ Definition step (ph:phase) (op:N) (bs:list N) (st:state) : option (list N * stat
                  then Some (rest, set_stack (TProved (Imp (Ex x l) r) :: s1) st) else None
              | [] => None end
          | _ => None end
-  | 24 => (* Substitution *)
+  | ISubst => (* Substitution *)
          match bs with
          | X::rest => match pop_proved (stack st) with
              | Some (p, s1) => match pop_pat s1 with
@@ -178,7 +196,7 @@ Definition step (ph:phase) (op:N) (bs:list N) (st:state) : option (list N * stat
                  | None => None end
              | None => None end
          | [] => None end
-  | 26 => (* Instantiate *)
+  | IInst => (* Instantiate *)
          match bs with
          | n::rest =>
              match stack st with
@@ -194,15 +212,15 @@ Definition step (ph:phase) (op:N) (bs:list N) (st:state) : option (list N * stat
                  | None => None end
              | [] => None end
          | [] => None end
-  | 27 => match stack st with _::s1 => Some (bs, set_stack s1 st) | [] => None end
-  | 28 => match stack st with
+  | IPop => match stack st with _::s1 => Some (bs, set_stack s1 st) | [] => None end
+  | ISave => match stack st with
           | t::_ => Some (bs, mkst (stack st) (memory st ++ [t]) (claims st))
           | [] => None end
-  | 29 => match bs with
+  | ILoad => match bs with
           | i::rest => match nth_error (memory st) (N.to_nat i) with
                        | Some t => Some (rest, push t st) | None => None end
           | [] => None end
-  | 30 => match ph with
+  | IPublish => match ph with
           | Gamma => match pop_pat (stack st) with
                      | Some (p, s1) => Some (bs, mkst s1 (memory st ++ [TProved p]) (claims st))
                      | None => None end
@@ -217,7 +235,14 @@ Definition step (ph:phase) (op:N) (bs:list N) (st:state) : option (list N * stat
                                 | None => None end
                      | [] => None end
           end
-  | _ => None   (* 16,17,18,20,23,25: unimplemented!; everything else: "Bad Instruction!" *)
+  | IUnimpl => None   (* PropagationOr/Exists, PreFixpoint, Singleton, Frame, KnasterTarski: unimplemented! *)
+  end.
+
+
+Definition step (ph:phase) (op:N) (bs:list N) (st:state) : option (list N * state) :=
+  match decode_op op with
+  | Some i => step_i ph i bs st
+  | None => None          (* "Bad Instruction!" *)
   end.
 
 Fixpoint exec_fuel (fuel:nat) (ph:phase) (bs:list N) (st:state) : option state :=
